@@ -382,13 +382,14 @@ theorem inv_shutdown {p : PS} (h : Inv p) (hd : Nat) : Inv { p with a := (appShu
     have ho := handleObj_obj hh
     have s := appShutdown_eff p.a hd
     rw [hfid_of hh] at s
-    rcases appShutdown_local p.a hd i o hh h.runA.outClosed with ⟨hf, hres⟩ | ⟨hf, u⟩
-    · rw [hres]; exact h
+    rcases appShutdown_local p.a hd i o hh h.runA.outClosed with ⟨hf, u⟩ | ⟨hf, u⟩
+    · exact inv_of_sender_upd (g' := p.ga) h s u ho rfl rfl (by simp) (hS_of_eq rfl rfl rfl rfl)
+        rfl rfl rfl rfl rfl rfl rfl rfl rfl rfl noReset_nil (fun hh => ⟨hh, rfl⟩) ⟨rfl, fun _ => rfl, fun hh => (by cases hh)⟩ (fun _ _ => ⟨rfl, rfl, rfl⟩)
     · refine inv_of_sender_upd (g' := p.ga) h s u ho rfl rfl ?_ ?_
         rfl rfl rfl rfl rfl rfl rfl rfl rfl rfl ?_ (fun hh => by rw [hf] at hh; cases hh) ⟨rfl, fun hh => (by rw [hf] at hh; cases hh), fun _ => rfl⟩ (fun _ _ => ⟨rfl, rfl, rfl⟩)
       · intro m hm; simp at hm; subst hm; exact ⟨rfl, rfl⟩
       · intro _ oR fwd bwd r eof l dr
-        exact ⟨_, dr.shutdown o.fid hf⟩
+        exact ⟨_, (dr.shutdown o.fid hf).congr rfl rfl rfl rfl rfl rfl rfl rfl rfl rfl rfl rfl rfl rfl⟩
       · intro m hm y' he; simp at hm; subst hm; cases he
 
 /-- After end-of-stream was seen, dropping the handle changes nothing the relation looks at. -/
